@@ -548,6 +548,50 @@ pub fn t_impl6(a: &[i64]) -> Val {
     build_one(ps, &m)
 }
 
+// t_privbase: derived type whose #[base] fields are public or private (C07: a public base function stays callable on the derived type
+// whatever the visibility of the field it is reached through).
+//   A { [vftable { pub fn f0(&self); }] pub ax: *const u8 }  impl A { #[address(256)] pub fn k(&self) -> u32; }
+//   B { [vftable { pub fn g0(&self, x: u32) -> u32; }] pub bx: *const u8 }  impl B { #[address(512)] pub fn kb(&mut self); }
+//   D { #[base] [pub] a: A, [#[base] [pub] b: B,] pub dx: *const u8 }
+// a = [ps, a_field_private, b_field_private, two_bases, a_vft, b_vft]
+pub fn t_privbase(a: &[i64]) -> Val {
+    let ps = a[0] as usize;
+    let p8 = || T::ident("u8").const_pointer();
+    let vis = |private: i64| if private != 0 { V::Private } else { V::Public };
+    let mut a_stmts: Vec<TS> = vec![];
+    if a[4] != 0 {
+        a_stmts.push(TS::vftable([F::new((V::Public, "f0"), [Ar::ConstSelf])]));
+    }
+    a_stmts.push(TS::field((V::Public, "ax"), p8()));
+    let mut b_stmts: Vec<TS> = vec![];
+    if a[5] != 0 {
+        b_stmts.push(TS::vftable([F::new((V::Public, "g0"), [Ar::ConstSelf, Ar::named("x", T::ident("u32"))])
+            .with_return_type(T::ident("u32"))]));
+    }
+    b_stmts.push(TS::field((V::Public, "bx"), p8()));
+    let mut d_stmts: Vec<TS> = vec![TS::field((vis(a[1]), "a"), T::ident("A")).with_attributes([A::base()])];
+    if a[3] != 0 {
+        d_stmts.push(TS::field((vis(a[2]), "b"), T::ident("B")).with_attributes([A::base()]));
+    }
+    d_stmts.push(TS::field((V::Public, "dx"), p8()));
+    let m = M::new()
+        .with_definitions([
+            ID::new((V::Public, "A"), TD::new(a_stmts)),
+            ID::new((V::Public, "B"), TD::new(b_stmts)),
+            ID::new((V::Public, "D"), TD::new(d_stmts)),
+        ])
+        .with_impls([
+            FB::new(
+                "A",
+                [F::new((V::Public, "k"), [Ar::ConstSelf])
+                    .with_attributes([A::integer_fn("address", 256)])
+                    .with_return_type(T::ident("u32"))],
+            ),
+            FB::new("B", [F::new((V::Public, "kb"), [Ar::MutSelf]).with_attributes([A::integer_fn("address", 512)])]),
+        ]);
+    build_one(ps, &m)
+}
+
 // t_implname: impl block of T whose function names may already be taken (C05: every declared #[address] function is emitted, or the
 // description is rejected).
 //   type Bz { x: u32 }  impl Bz { #[address(256)] [pub] fn <bname>(&self) -> u32; }         (base_kind != 0)
@@ -1414,6 +1458,7 @@ pub const TEMPLATES: &[(&str, Template)] = &[
     ("t_enum", t_enum),
     ("t_impl", t_impl),
     ("t_implname", t_implname),
+    ("t_privbase", t_privbase),
     ("t_impl6", t_impl6),
     ("t_vft", t_vft),
     ("t_graph", t_graph),
